@@ -13,7 +13,7 @@ func init() {
 		ID: "C16", Level: "exploration",
 		Rule: "one case = one history of 8..40 cursor operations on two cursors (DECLARE, OPEN, FETCH NEXT/PRIOR/FIRST/LAST/ABSOLUTE n/RELATIVE n with n in {0,±1,±len,±(len+1),10^12}, CLOSE, DISPOSE, WHILE..IN, the status expressions IS [NOT] OPEN / IS [NOT] IN RANGE / COUNT) interleaved with INSERT/UPDATE/DELETE/ALTER on the underlying table, COMMIT and ROLLBACK, executed statement by statement in one real transaction; result sizes 0,1,2,7 and 300. " +
 			"Oracle: a cursor model (declared, open, snapshot rows taken by a SELECT of the same query at OPEN time, pointer clamped to [-1,len], fetched flag); fetched values, status values, the rows visited by WHILE..IN and whether an operation is an error are compared after every operation. non-trivial = at least 3 in-range fetches were compared after the underlying table had changed; distinct = history digest.",
-		Quick: 6000, Thorough: 100000, FloorQuick: 600, FloorThorough: 12000,
+		Quick: 6000, Thorough: 500000, FloorQuick: 600, FloorThorough: 60000,
 		Assumptions: []string{"the variables after an out-of-range FETCH are not judged (the manual says NULL, the property is silent)", "fetch offsets that are not integers are executed only to watch for internal failures"},
 		Setup:       func(w *core.Worker) { core.HermeticProcess(w.Work) },
 		Fn:          c16Case,
